@@ -553,11 +553,22 @@ failpoint(const char *what, coap_memory_tag_t type, size_t size) {
   return 0;
 }
 
+#define VF_MAX_ALLOC ((size_t)256 << 20)
+long vf_big_refused = 0;
+
 void *
 __wrap_coap_malloc_type(coap_memory_tag_t type, size_t size) {
   void *p;
   if (failpoint("malloc", type, size))
     return NULL;
+  /* The machine's memory is finite in every build variant alike (the sanitizer builds have
+   * max_allocation_size_mb=256): a request for more fails, as malloc() does on a system
+   * with a limit.  Without this a peer-chosen Size1 of 4 GiB makes the uninstrumented
+   * build under valgrind eat the sandbox's memory until the kernel kills something. */
+  if (size > VF_MAX_ALLOC) {
+    vf_big_refused++;
+    return NULL;
+  }
   p = __real_coap_malloc_type(type, size);
   if (p && vf_shadow_on)
     sh_add(p, size, (int)type);
@@ -569,6 +580,10 @@ __wrap_coap_realloc_type(coap_memory_tag_t type, void *old, size_t size) {
   void *p;
   if (failpoint("realloc", type, size))
     return NULL;
+  if (size > VF_MAX_ALLOC) {
+    vf_big_refused++;
+    return NULL;
+  }
   if (old && vf_shadow_on && !sh_del(old, (int)type)) {
     vf_bad_free++;
     ev_begin("badfree");
